@@ -210,14 +210,14 @@ PROPS = {
         "summary": ("No-crash, at the evaluator's value-type dispatch points and in the callees behind them.  DISPATCH (Verus, blocks and functions "
                     "cut from src/runtime.rs on every run, for ALL runtime types of every operand/receiver/argument): the binary operator dispatch, "
                     "`and`/`or`, unary operators, if/jasi conditions, the index receiver, eval_member_call, eval_string_member_call, "
-                    "eval_array_member_call, eval_array_member_call_mut, eval_process_command_call_mut and check_method_arity contain no reachable "
+                    "eval_array_member_call, eval_array_member_call_mut, eval_process_command_call_mut, eval_builtin_call and check_method_arity contain no reachable "
                     "unreachable!/assert!/expect/slice-index panic: every ill-typed combination returns RuntimeErrorKind::TypeMismatch and every "
                     "well-typed one the documented result type; the Builtin::arity tables that make `args.args[k]` in bounds are verified against the "
                     "documented arities.  CALLEES: tw::find / maximal_suffix / crit_period / replace verified by Verus for all inputs (bounds, "
                     "overflow, termination), StringBuiltin::slice on every class of f64 bound; Resolver::check_function_body rejects comot/next that "
                     "could reach the runtime's unreachable!() at a function boundary."),
         "not_covered": ("panic sites that do not depend on a value's runtime type and are justified by parser/resolver structure (a variable that "
-                        "exists, a callee that is a name or member, an index-assignment target shape, the global builtins' arity assert); allocation "
+                        "exists, a callee that is a name or member); allocation "
                         "failure; native stack exhaustion (C08); the statements cut out of the dispatch arms (payload arithmetic and string building, "
                         "listed per obligation as rewrites R12/R13).  The dispatch points were where defect D4 lived (~25 reachable panics, repaired by "
                         "1ddff14 and 983d2ef)."),
